@@ -546,3 +546,560 @@ def fam_frag(tier):
             sc.line(nmea.line(n=2, k=2, sid=1, payload=pay[c:], fill=fill), 0, 1,
                     tag="B:g%d:C05:msg:fragmented-vs-unfragmented" % gi)
     return sc
+
+
+# ===========================================================================
+# payload layer families
+# ===========================================================================
+def fam_types(tier):
+    """C09: all 64 type values x legal-length messages and every byte length 0..max+2."""
+    tb = T.tables()
+    rnd = rng("types")
+    sc = Scenario()
+    thorough = tier == "thorough"
+    S = shapes()
+    reps = 40 if thorough else 6
+    for t in range(64):
+        sc.unit()
+        mine = [s for s in S if s[0] == t]
+        for r in range(reps):
+            if mine:
+                for s in mine:
+                    buf = rand_message(tb, rnd, shape=s)
+                    emit(sc, buf, "D")
+                    emit(sc, buf, "L")
+            else:
+                for nbits in (168, 96, 424, 72):
+                    buf = enc.BitBuf(nbits, rnd=rnd)
+                    buf.put(0, 6, t)
+                    emit(sc, buf, "D")
+                    emit(sc, buf, "L")
+        mx = 60 if not thorough else 130
+        for nbytes in range(0, mx):
+            d = bytearray(rnd.randrange(256) for _ in range(nbytes))
+            if nbytes:
+                d[0] = (t << 2) | (d[0] & 3)
+            sc.decode(bytes(d))
+    return sc
+
+
+COORD_FIELDS = [(t, "longitude") for t in (1, 2, 3, 4, 9, 11, 17, 18, 19, 21, 27)] + \
+               [(t, "latitude") for t in (1, 2, 3, 4, 9, 11, 17, 18, 19, 21, 27)]
+SCALED_FIELDS = [(1, "speed_over_ground"), (2, "course_over_ground"), (3, "speed_over_ground"),
+                 (1, "course_over_ground"), (9, "speed_over_ground"), (9, "course_over_ground"),
+                 (18, "speed_over_ground"), (18, "course_over_ground"), (19, "speed_over_ground"),
+                 (19, "course_over_ground"), (27, "speed_over_ground"), (27, "course_over_ground"),
+                 (5, "draught")]
+
+
+def shape_of(t):
+    for s in shapes():
+        if s[0] == t and (t != 24):
+            return s
+    return None
+
+
+def coord_values(w, sentinel, rnd, nrand):
+    mx = (1 << w) - 1
+    half = 1 << (w - 1)
+    vals = {0, 1, mx, half, half + 1, half - 1, half - 2, mx - 1, sentinel & mx, (sentinel + 1) & mx, (sentinel - 1) & mx,
+            (-sentinel) & mx}
+    for i in range(w):
+        for d in (-1, 0, 1):
+            vals.add(((1 << i) + d) & mx)
+            vals.add((-(1 << i) + d) & mx)
+    # exactly +-90 / +-180 degrees at the field's resolution
+    unit = 600000 if w >= 27 else 600
+    for deg in (90, 180, 45, 1):
+        for sgn in (1, -1):
+            for d in (-1, 0, 1):
+                vals.add((sgn * deg * unit + d) & mx)
+    for _ in range(nrand):
+        vals.add(rnd.getrandbits(w))
+    return sorted(vals)
+
+
+def fam_coords(tier):
+    """C10: boundary-complete coordinate values in every type carrying one; all speed/course/draught values."""
+    tb = T.tables()
+    rnd = rng("coords")
+    sc = Scenario()
+    thorough = tier == "thorough"
+    sent = tb["sentinels"]
+    for (t, nm) in COORD_FIELDS:
+        sc.unit()
+        s = shape_of(t)
+        off, w = tb["itu"][enc.layout_key(t)][nm]
+        na = sent[{28: "lon28", 27: "lat27", 18: "lon18", 17: "lat17"}[w]]
+        for bg in ("zero", "ones", "rand"):
+            for v in coord_values(w, na, rnd, 4096 if thorough else 48):
+                buf = enc.BitBuf(s[1], 1 if bg == "ones" else 0) if bg != "rand" else enc.BitBuf(s[1], rnd=rnd)
+                buf.put(0, 6, t)
+                buf.put(off, w, v)
+                emit(sc, buf, "D")
+                if bg == "rand" and (v & 7) == 3:
+                    emit(sc, buf, "L")
+    for (t, nm) in SCALED_FIELDS:
+        sc.unit()
+        s = shape_of(t)
+        off, w = tb["itu"][enc.layout_key(t)][nm]
+        for v in range(1 << w):
+            if not thorough and w > 10 and (v % 3) and v not in (3600, 3599, 3601, 4095, 4094):
+                continue
+            buf = enc.BitBuf(s[1], rnd=rnd)
+            buf.put(0, 6, t)
+            buf.put(off, w, v)
+            emit(sc, buf, "D")
+    return sc
+
+
+# (type, field, sentinel raw value)
+def optional_fields(tb):
+    sent = tb["sentinels"]
+    out = []
+    for t in (1, 2, 3, 4, 9, 11, 18, 19, 21):
+        out += [(t, "longitude", sent["lon28"]), (t, "latitude", sent["lat27"])]
+    for t in (17, 27):
+        out += [(t, "longitude", sent["lon18"]), (t, "latitude", sent["lat17"])]
+    for t in (1, 2, 3, 9, 18, 19):
+        out += [(t, "speed_over_ground", 1023), (t, "course_over_ground", 3600)]
+    out += [(27, "speed_over_ground", 63), (27, "course_over_ground", 511)]
+    for t in (1, 2, 3, 18, 19):
+        out += [(t, "true_heading", 511)]
+    for t in (1, 2, 3):
+        out += [(t, "rate_of_turn", 128)]
+    out += [(9, "altitude", 4095)]
+    for t in (4, 11):
+        out += [(t, "year", 0), (t, "month", 0), (t, "day", 0), (t, "minute", 60), (t, "second", 60), (t, "hour", 24)]
+    out += [(5, "eta_month_utc", 0), (5, "eta_day_utc", 0), (5, "eta_minute_utc", 60), (5, "eta_hour_utc", 24)]
+    out += [(15, "offset1_1", 0), (15, "offset1_2", 0), (15, "offset2_1", 0)]
+    return out
+
+
+def fam_sentinel(tier):
+    """C11: every optional numeric field: the sentinel, its neighbours, extremes, out-of-range values."""
+    tb = T.tables()
+    rnd = rng("sentinel")
+    sc = Scenario()
+    thorough = tier == "thorough"
+    for (t, nm, na) in optional_fields(tb):
+        sc.unit()
+        off, w = tb["itu"][enc.layout_key(t)][nm]
+        mx = (1 << w) - 1
+        if w <= 12:
+            vals = list(range(1 << w)) if (thorough or w <= 10) else \
+                sorted(set(list(range(0, 1 << w, 5)) + [na, na - 1, na + 1, mx, mx - 1, 0, 1]) & set(range(1 << w)))
+        else:
+            vals = sorted({na & mx, (na - 1) & mx, (na + 1) & mx, 0, 1, mx, mx - 1, 1 << (w - 1), (1 << (w - 1)) - 1,
+                           (-na) & mx, (na >> 1) & mx, (na << 1) & mx, (na + (1 << (w - 1))) & mx}
+                          | {rnd.getrandbits(w) for _ in range(256 if thorough else 64)}
+                          | ({(54600000 + d) & mx for d in (-600000, -1, 0, 1)} if w == 27 else set())
+                          | ({(90 * 600000 + d) & mx for d in (0, 1, 599999)} if w == 27 else set()))
+        nbits = 160 if t == 15 else shape_of(t)[1]
+        for v in vals:
+            buf = enc.BitBuf(nbits, rnd=rnd)
+            buf.put(0, 6, t)
+            buf.put(off, w, v)
+            emit(sc, buf, "D")
+            if v in (na, na + 1):
+                emit(sc, buf, "L")
+    sc.unit()
+    for r in range(256):
+        sc.rot(r)
+    return sc
+
+
+ENUM_FIELDS = [(1, "navigation_status"), (2, "navigation_status"), (3, "navigation_status"), (27, "navigation_status"),
+               (1, "maneuver_indicator"), (2, "maneuver_indicator"), (3, "maneuver_indicator"),
+               (4, "epfd_type"), (5, "epfd_type"), (11, "epfd_type"), (19, "epfd_type"), (21, "epfd_type"),
+               (5, "ship_type"), (19, "type_of_ship_and_cargo"), (24, "ship_type"), (21, "aid_type"),
+               (5, "dte"), (9, "dte"), (19, "dte"), (9, "assigned_mode"), (18, "assigned_mode"), (19, "assigned_mode"),
+               (18, "cs_unit"), (24, "part_number"),
+               (1, "position_accuracy"), (2, "position_accuracy"), (3, "position_accuracy"), (4, "fix_quality"),
+               (11, "fix_quality"), (9, "position_accuracy"), (18, "position_accuracy"), (19, "position_accuracy"),
+               (21, "accuracy"), (27, "position_accuracy"),
+               (1, "raim"), (18, "has_display"), (18, "has_dsc"), (18, "whole_band"), (18, "accepts_message_22"),
+               (21, "off_position"), (21, "virtual_aid"), (21, "assigned_mode"), (27, "gnss_position_status"),
+               (6, "retransmit"), (12, "retransmit")]
+SYNC_TYPES = (1, 2, 3, 4, 9, 11, 18)
+
+
+def fam_enums(tier):
+    """C12: every code of every enumerated field in every type that carries it (exhaustive)."""
+    tb = T.tables()
+    rnd = rng("enums")
+    sc = Scenario()
+    for (t, nm) in ENUM_FIELDS:
+        sc.unit()
+        off, w = tb["itu"][enc.layout_key(t)][nm]
+        if t == 24:
+            base = (24, 168, {"part_number": 1})
+        else:
+            base = shape_of(t)
+        for bg in ("zero", "ones", "rand"):
+            for v in range(1 << w):
+                buf = enc.BitBuf(base[1], 1 if bg == "ones" else 0) if bg != "rand" else enc.BitBuf(base[1], rnd=rnd)
+                buf.put(0, 6, t)
+                if t == 24 and nm != "part_number":
+                    buf.put(38, 2, 1)
+                buf.put(off, w, v)
+                emit(sc, buf, "D")
+                if bg == "rand" and v % 4 == 0:
+                    emit(sc, buf, "L")
+    sc.unit()
+    for t in SYNC_TYPES:
+        for sel in (0, 1):
+            for v in range(4):
+                for rep in range(3):
+                    buf = enc.BitBuf(168, rnd=rnd)
+                    buf.put(0, 6, t)
+                    buf.put(148, 1, sel)
+                    buf.put(149, 2, v)
+                    emit(sc, buf, "D")
+    sc.unit()
+    for c in range(256):
+        sc.ship(c)
+    return sc
+
+
+TEXT_FIELDS = [(5, 70, 7), (5, 112, 20), (5, 302, 20), (19, 143, 20), (21, 43, 20),
+               ("24A", 40, 20), ("24B", 48, 3), ("24B", 66, 4), ("24B", 90, 7), (12, 72, None), (14, 40, None)]
+
+
+def text_base(tb, rnd, t, nchars=None):
+    if t == "24A":
+        buf = enc.BitBuf(168, rnd=rnd); buf.put(0, 6, 24); buf.put(38, 2, 0)
+    elif t == "24B":
+        buf = enc.BitBuf(168, rnd=rnd); buf.put(0, 6, 24); buf.put(38, 2, 1)
+    elif t == 12:
+        buf = enc.BitBuf(72 + 6 * nchars, rnd=rnd); buf.put(0, 6, 12)
+    elif t == 14:
+        buf = enc.BitBuf(40 + 6 * nchars, rnd=rnd); buf.put(0, 6, 14)
+    else:
+        buf = enc.BitBuf(shape_of(t)[1], rnd=rnd); buf.put(0, 6, t)
+    return buf
+
+
+def fam_text(tier):
+    """C13: each of the 64 characters at each position; padding patterns at both ends; all-padding;
+    interior '@' and spaces; maximal lengths; every field's own alignment."""
+    tb = T.tables()
+    rnd = rng("text")
+    sc = Scenario()
+    thorough = tier == "thorough"
+    PAD = [0, 32, 1, 63]       # '@' ' ' 'A' '?'
+    for (t, off, n) in TEXT_FIELDS:
+        sc.unit()
+        lens = [n] if n else ([1, 2, 5, 19, 20, 21, 60, 156] if thorough else [1, 3, 20, 21, 156])
+        for nch in lens:
+            if t == 14 and nch == 156:
+                nch = 161
+            def put_text(codes):
+                buf = text_base(tb, rnd, t, nch)
+                for i, c in enumerate(codes):
+                    buf.put(off + 6 * i, 6, c)
+                emit(sc, buf, "D")
+                return buf
+            fill_codes = [rnd.randrange(1, 32) for _ in range(nch)]
+            # each character at each position (others letters)
+            positions = range(nch) if (thorough or nch <= 7) else sorted({0, 1, nch // 2, nch - 2, nch - 1})
+            for pos in positions:
+                for c in range(64):
+                    codes = list(fill_codes)
+                    codes[pos] = c
+                    put_text(codes)
+            # all patterns over PAD on the first three and last four positions
+            import itertools
+            head = min(3, nch)
+            tail = min(4, nch - head)
+            for hp in itertools.product(PAD, repeat=head):
+                for tp in (itertools.product(PAD, repeat=tail) if tail else [()]):
+                    if not thorough and rnd.random() < 0.6 and nch > 7:
+                        continue
+                    codes = list(fill_codes)
+                    codes[:head] = hp
+                    if tail:
+                        codes[nch - tail:] = tp
+                    put_text(codes)
+            for allc in (0, 32, 1, 63, 31, 33):
+                put_text([allc] * nch)
+            for _ in range(40 if thorough else 8):
+                codes = [rnd.choice([0, 32, 32, 0, rnd.randrange(64)]) for _ in range(nch)]
+                b2 = put_text(codes)
+                emit(sc, b2, "L")
+    return sc
+
+
+def fam_varlen(tier):
+    """C14: for every supported type every byte length 0..max legal + 8, random / all-ones / all-zero contents;
+    armored character counts x fill around each legal length."""
+    tb = T.tables()
+    rnd = rng("varlen")
+    sc = Scenario()
+    thorough = tier == "thorough"
+    sup = tb["supported"]
+    for t in sup:
+        sc.unit()
+        legal = tb["legalbytes"][str(t)] if isinstance(tb["legalbytes"], dict) else tb["legalbytes"][t]
+        mx = min(max(legal), 60 if not thorough else 140) + 8
+        if t in (6, 8, 12, 14, 17) and not thorough:
+            mx = 40
+        for nbytes in range(0, mx + 1):
+            kinds = ["zero", "ones"] + ["rand"] * (8 if thorough else 3)
+            for kind in kinds:
+                if kind == "rand":
+                    d = bytearray(rnd.randrange(256) for _ in range(nbytes))
+                else:
+                    d = bytearray([255 if kind == "ones" else 0] * nbytes)
+                if nbytes:
+                    d[0] = (t << 2) | (d[0] & 3)
+                if t == 24 and nbytes >= 5:
+                    part = rnd.choice([0, 0, 1, 1, 2, 3])
+                    d[4] = (d[4] & 0xfc) | part
+                sc.decode(bytes(d))
+        # through the sentence layer: character counts x fill around the legal lengths
+        Ls = tb["lengths"][str(t)] if isinstance(tb["lengths"], dict) else tb["lengths"][t]
+        for L in sorted(Ls)[: (8 if not thorough else 40)]:
+            nch = (L + 5) // 6
+            for dn in (-2, -1, 0, 1, 2):
+                if nch + dn < 1:
+                    continue
+                for fill in range(6):
+                    pay = bytearray(rand_armor(rnd, nch + dn))
+                    pay[0] = nmea.ARMOR[t]
+                    sc.line(nmea.line(payload=bytes(pay), fill=fill), 0, 1)
+    return sc
+
+
+def fam_binary(tier):
+    """C15: types 6, 8, 17 with every payload length and three content patterns; header walks."""
+    tb = T.tables()
+    rnd = rng("binary")
+    sc = Scenario()
+    thorough = tier == "thorough"
+    for (t, hdr, maxbits) in ((6, 88, 920), (8, 56, 952), (17, 120, 696)):
+        sc.unit()
+        step = 1 if thorough else 1
+        for nb in range(0, maxbits // 8 + 5, step):
+            for kind in ("inc", "ff", "rand"):
+                total = hdr // 8 + nb
+                d = bytearray(rnd.randrange(256) for _ in range(hdr // 8))
+                if kind == "inc":
+                    d += bytes((i + 1) & 255 for i in range(nb))
+                elif kind == "ff":
+                    d += b"\xff" * nb
+                else:
+                    d += bytes(rnd.randrange(256) for _ in range(nb))
+                d[0] = (t << 2) | (d[0] & 3)
+                sc.decode(bytes(d))
+                if kind == "rand" and nb % 3 == 0 and len(d) * 8 // 6 < 380:
+                    for fill in ((0, 2, 4) if nb % 2 else (0,)):
+                        pay, f0 = nmea.armor(bytes(d))
+                        sc.line(nmea.line(payload=pay, fill=f0), 0, 1)
+        # header fields
+        itu = tb["itu"][enc.layout_key(t)]
+        for nm, (off, w) in itu.items():
+            if w == 0 or nm == "message_type":
+                continue
+            for v in walk_values(w, rnd, 6, 6):
+                buf = enc.BitBuf(hdr + 64, rnd=rnd)
+                buf.put(0, 6, t)
+                buf.put(off, w, v)
+                emit(sc, buf, "D")
+    for i in range(20000 if thorough else 300):
+        if i % 500 == 0:
+            sc.unit()
+        t, hdr, maxbits = rnd.choice(((6, 88, 920), (8, 56, 952), (17, 120, 696)))
+        nb = rnd.randrange(0, maxbits // 8 + 1)
+        d = bytearray(rnd.randrange(256) for _ in range(hdr // 8 + nb))
+        d[0] = (t << 2) | (d[0] & 3)
+        sc.decode(bytes(d))
+    return sc
+
+
+def fam_radio(tier):
+    """C16: communication state of the seven types: all time-outs x sync states x sub-message values,
+    ITDMA fields, both selector values, the preceding bit toggled."""
+    tb = T.tables()
+    rnd = rng("radio")
+    sc = Scenario()
+    thorough = tier == "thorough"
+    subvals = sorted({0, 1, 2, 0x3fff, 0x3ffe, 0x2aaa, 0x1555, 0x2000, 0x1fff, 23 << 9, 24 << 9, 59 << 2, 60 << 2,
+                      (23 << 9) | (59 << 2), (31 << 9) | (127 << 2), (12 << 9) | (30 << 2) | 3, 64 << 2, 100 << 2,
+                      (5 << 9) | (1 << 8) | (14 << 2)} | {rnd.getrandbits(14) for _ in range(40 if thorough else 10)})
+    for t in SYNC_TYPES:
+        sc.unit()
+        for sel in ((0, 1) if t in (9, 18) else (rnd.randrange(2),)):
+            for pre in (0, 1):
+                for sync in range(4):
+                    for to in range(8):
+                        for sv in subvals:
+                            buf = enc.BitBuf(168, rnd=rnd)
+                            buf.put(0, 6, t)
+                            buf.put(147, 1, pre)
+                            buf.put(148, 1, sel if t in (9, 18) else pre)
+                            buf.put(149, 2, sync)
+                            buf.put(151, 3, to)
+                            buf.put(154, 14, sv)
+                            emit(sc, buf, "D")
+        for _ in range(4000 if thorough else 300):
+            buf = enc.BitBuf(168, rnd=rnd)
+            buf.put(0, 6, t)
+            emit(sc, buf, "D" if rnd.random() < 0.8 else "L")
+    return sc
+
+
+def fam_radio_exhaustive(tier):
+    """C16 thorough: all 2^19 states (2^20 with the selector for 9 and 18) of each type."""
+    rnd = rng("radiox")
+    sc = Scenario()
+    for t in SYNC_TYPES:
+        bits = 20 if t in (9, 18) else 19
+        stride = 1 if t in (1, 3, 4, 9, 18) else 8
+        base = enc.BitBuf(168, rnd=rnd)
+        base.put(0, 6, t)
+        for v in range(0, 1 << bits, stride):
+            if v % 4096 == 0:
+                sc.unit()
+            base.put(168 - bits, bits, v)
+            sc.decode(base.bytes())
+    return sc
+
+
+def fam_mtype(tier):
+    """C19: all 64 armoring characters (and the non-alphabet bytes) as first payload character x sentence shapes."""
+    rnd = rng("mtype")
+    sc = Scenario()
+    tb = T.tables()
+    sc.unit()
+    sc.new(0)
+    firsts = list(nmea.ARMOR) + [c for c in range(256) if c not in nmea.ARMOR and c not in (44, 42)]
+    for c in firsts:
+        t = nmea.ARMOR.index(c) if c in nmea.ARMOR else None
+        for dec in (0, 1):
+            rest = rand_armor(rnd, 27)
+            if t is not None and shape_of(t):
+                buf = rand_message(tb, rnd, shape=shape_of(t))
+                pay, fill = nmea.armor(buf.bytes(), buf.n)
+            else:
+                pay, fill = bytes([c]) + rest, 0
+            sc.line(nmea.line(payload=pay, fill=fill), 0, dec)
+            sc.line(nmea.line(payload=pay, fill=fill, delim=b"$", tag=b"c:1"), 0, dec)
+            sc.line(nmea.line(payload=bytes([c]), fill=0), 0, dec)
+            # first fragment, later fragment
+            sc.line(nmea.line(n=2, k=1, sid=3, payload=bytes([c]) + rest), 0, dec)
+            sc.line(nmea.line(n=2, k=2, sid=3, payload=bytes([c]) + rest[:5]), 0, dec)
+    return sc
+
+
+# ===========================================================================
+# history families: C06 random streams, C17 twin streams
+# ===========================================================================
+def random_stream(rnd, length, ids, maxn=9, valid_only=True):
+    """A stream of sentences built from in-order groups, then perturbed by loss, duplication,
+    reordering, interleaving and id reuse.  Returns a list of kwargs for nmea.line."""
+    lines = []
+    while len(lines) < length:
+        n = rnd.choice([1, 2, 2, 3, 3, 4, 5, maxn])
+        sid = rnd.choice(ids)
+        grp = [dict(n=n, k=k, sid=sid, payload=rand_armor(rnd, rnd.randrange(1, 12)),
+                    fill=rnd.randrange(6) if k == n else 0) for k in range(1, n + 1)]
+        mode = rnd.randrange(10)
+        if mode == 0 and n > 1:                      # loss
+            del grp[rnd.randrange(n)]
+        elif mode == 1 and n > 1:                    # duplication
+            i = rnd.randrange(n)
+            grp.insert(i, dict(grp[i]))
+        elif mode == 2 and n > 2:                    # reordering
+            i = rnd.randrange(n - 1)
+            grp[i], grp[i + 1] = grp[i + 1], grp[i]
+        elif mode == 3 and n > 1:                    # id mismatch in the middle
+            i = rnd.randrange(1, n)
+            grp[i] = dict(grp[i], sid=rnd.choice([x for x in ids if x != sid] or [sid]))
+        elif mode == 4 and n > 1:                    # orphan tail only
+            grp = grp[rnd.randrange(1, n):]
+        elif mode == 5 and n > 1:                    # interleave with another group
+            n2 = rnd.randrange(2, 4)
+            sid2 = rnd.choice(ids)
+            g2 = [dict(n=n2, k=k, sid=sid2, payload=rand_armor(rnd, 3), fill=0) for k in range(1, n2 + 1)]
+            merged = []
+            while grp or g2:
+                src = grp if (grp and (not g2 or rnd.random() < 0.5)) else g2
+                merged.append(src.pop(0))
+            grp = merged
+        elif mode == 6 and n > 1:                    # stale fragment after the delivery
+            grp.append(dict(n=n + 1, k=n + 1, sid=sid, payload=rand_armor(rnd, 4), fill=0))
+        elif mode == 7 and not valid_only:           # numbering outside 1 <= k <= n
+            grp.append(dict(n=rnd.choice([0, 1, 2]), k=rnd.choice([0, 3, 200]), sid=sid, payload=rand_armor(rnd, 4), fill=0))
+        lines += grp
+    return lines[:length]
+
+
+def fam_seq(tier):
+    """C06: long random streams of validly numbered sentences over several ids and group sizes."""
+    rnd = rng("seq")
+    sc = Scenario()
+    thorough = tier == "thorough"
+    for si in range(2000 if thorough else 120):
+        sc.unit()
+        sc.new(0)
+        ids = rnd.choice([[None, 1, 2], [0, 1, 2, 3, 4, 5, 6, 7, 8, 9], [None], [7], list(range(250, 256)), [None, 0, 255, 10]])
+        L = rnd.choice([50, 80, 120, 500]) if thorough else rnd.choice([30, 50, 80])
+        for kw in random_stream(rnd, L, ids, maxn=rnd.choice([3, 5, 9])):
+            sc.line(nmea.line(**kw), 0, 0)
+    return sc
+
+
+def fam_twin(tier):
+    """C17: stream A = a random stream with removable lines (ill-formed, wrong checksum, out of sequence,
+    unfragmented) inserted; stream B = A without them.  Both go to two parser instances interleaved in one
+    process; the observations of the common lines must be identical (judged by the trace specification)."""
+    rnd = rng("twin")
+    sc = Scenario()
+    thorough = tier == "thorough"
+    key = 0
+    for si in range(40000 // 20 if thorough else 150):
+        sc.unit()
+        sc.new(0)
+        sc.new(1)
+        ids = rnd.choice([[None, 1, 2], [0, 1, 2, 3], [5]])
+        # the common lines: complete in-order groups (never removable, always in sequence)
+        common = []
+        for g in range(rnd.randrange(2, 7)):
+            n = rnd.randrange(2, 6)
+            sid = rnd.choice(ids)
+            common += [dict(n=n, k=k, sid=sid, payload=rand_armor(rnd, rnd.randrange(1, 10)), fill=0)
+                       for k in range(1, n + 1)]
+        pending_b = []
+        for kw in common:
+            # removable lines before this common line (stream A only)
+            for _ in range(rnd.choice([0, 0, 1, 1, 2, 3])):
+                kind = rnd.randrange(6)
+                if kind == 0:
+                    ln = noise_line(rnd)
+                elif kind == 1:     # out of sequence: a fragment that does not continue the open group
+                    ln = nmea.line(n=kw["n"], k=kw["k"] + rnd.choice([1, 2]), sid=kw["sid"], payload=rand_armor(rnd, 3))
+                elif kind == 2:     # wrong id for the open group
+                    other = rnd.choice([x for x in [None, 1, 2, 3, 9] if x != kw["sid"]])
+                    ln = nmea.line(n=kw["n"], k=max(2, kw["k"]), sid=other, payload=rand_armor(rnd, 3))
+                elif kind == 3:     # an exact duplicate of the previous fragment of this group (k-1) is out of sequence too
+                    if kw["k"] >= 3:
+                        ln = nmea.line(n=kw["n"], k=kw["k"] - 2, sid=kw["sid"], payload=rand_armor(rnd, 3)) if kw["k"] - 2 >= 2 else noise_line(rnd)
+                    else:
+                        ln = noise_line(rnd)
+                elif kind == 4:     # unfragmented sentence, decodable or not
+                    ln = nmea.line(payload=rnd.choice(corpus.PAYLOADS)[0], sid=kw["sid"])
+                else:
+                    ln = nmea.line(payload=rand_armor(rnd, rnd.randrange(1, 20)), fill=rnd.randrange(6))
+                sc.line(ln, 0, rnd.randrange(2), tag="R:")
+            key += 1
+            b = nmea.line(**kw)
+            sc.line(b, 0, 0, tag="A:t%d" % key)
+            pending_b.append((b, key))
+            # stream B is fed with a lag, interleaved with A in the same process
+            while pending_b and rnd.random() < 0.6:
+                bb, kk = pending_b.pop(0)
+                sc.line(bb, 1, 0, tag="B:t%d:C17:full:removal-of-rejected-or-unfragmented-lines" % kk)
+        for bb, kk in pending_b:
+            sc.line(bb, 1, 0, tag="B:t%d:C17:full:removal-of-rejected-or-unfragmented-lines" % kk)
+    return sc
